@@ -207,6 +207,10 @@ def run_loader_case(inp):
                 out = ld.align(tmpl, max_shifts=msv, alignment_model=M)
             elif via == "multi":
                 out = ld.align_multi_templates([tmpl, tmpl[::-1].copy()], max_shifts=msv, alignment_model=M)
+            elif via == "align_list":
+                out = ld.align([tmpl, tmpl[::-1].copy()], max_shifts=msv, alignment_model=M)
+            elif via == "align_rot":
+                out = ld.align(tmpl, max_shifts=msv, alignment_model=M, rotations=((0, 0), (0, 0), (10, 10)))
             elif via == "group":
                 out = list(ld.groupby("g").align(tmpl, max_shifts=msv, alignment_model=M))[0][1]
             else:
@@ -254,11 +258,16 @@ def oracle(rng, thorough, deep=False, hints=None):
     for mdl in models[:3]:
         cases.append(dict(kind="model", model=mdl, shape=[6, 6, 6], max_shifts=[11.0, 7.5, 11.9], sub="noise",
                           seed=5, rotations=False, cutoff=None, tilt=None))
+    vias = ["align", "multi", "group", "group_multi", "align_list", "align_rot"]
+    nl = 0
     for mdl in (models[:3] if not big else models):
         for ms in ([0.73, 1.0] if not big else [0.0, 0.73, 1.0, [0.5, 1.5, 0.25]]):
-            cases.append(dict(kind="loader", model=mdl, scale=float(rng.choice([1.0, 0.5, 2.0])),
-                              n=int(rng.choice([6, 7])), max_shifts=ms, seed=int(rng.integers(0, 10 ** 6)),
-                              via=["align", "multi", "group", "group_multi"][len(cases) % 4]))
+            for rep in range(2):
+                # every entry point is visited with a scale other than 1 (nm != px)
+                cases.append(dict(kind="loader", model=mdl, scale=[0.5, 2.0, 1.0, 0.37][(nl // len(vias) + rep) % 4],
+                                  n=int(rng.choice([6, 7])), max_shifts=ms, seed=int(rng.integers(0, 10 ** 6)),
+                                  via=vias[nl % len(vias)]))
+                nl += 1
     viols, stats = [], {"by_model": {}, "by_sub": {}, "samples": [{"oracle_case": c} for c in cases[:2]]}
     for c in cases:
         stats["by_model"][c["model"]] = stats["by_model"].get(c["model"], 0) + 1
